@@ -12,7 +12,7 @@ META = {
             "once, never stored in Server or across an await; W3 the lock-order graph over all locks of crate glas is acyclic; W4 the "
             "change is applied to the analysis host before diagnostics are recomputed, the snapshot is taken before the previous "
             "task is replaced, closed documents get empty diagnostics; W5 cancellation is requested before inputs are written. "
-            "One obligation per guard acquisition / call site. W7 the document store is written only after cancellation was requested (no reader pairs an old analysis with the new line map); W8 = C12/K4 over the handlers.",
+            "One obligation per guard acquisition / call site. W7 the document store is written only after cancellation was requested (no reader pairs an old analysis with the new line map); W8 = C12/K4 over the handlers. W9 a cancelling handler recomputes all diagnostics on every path; W10 = C13/D9; W11 = C13/D10.",
     "explanation": "The two-lock discipline ('never wait for snapshots while holding the document store') is documented in "
                    "comments only. MIR makes guard lifetimes explicit (the unwrap that yields the guard, mem::drop, Drop "
                    "terminators, moves), so the regions in which a guard is live are computed exactly per function and every call "
@@ -36,10 +36,16 @@ def run(F, res, tier):
     lock_rules(F, res)
     other_rules(F, res)
     store_updates_after_cancellation(F, res)
+    cancellation_is_followed_by_recompute(F, res)
     from rules import c12 as _c12
     hs = [f for p_, f in sorted(F.fns.items()) if p_.startswith("glas::handler::") and f.blocks and "{closure" not in p_]
     res.floor("request handlers in glas::handler", len(hs), 10)
     _c12.cancelled_not_swallowed(F, res, hs, "W8", lambda f: "handler::%s" % f.name)
+    from rules import c13 as _c13x
+    _c13x.last_text_wins(F, res, rule="W10")
+    # positions are converted through LineMap in both directions: writer and readers of its table use one coordinate system (C13/D10)
+    from rules import c13 as _c13lm
+    _c13lm.line_map_coordinates_agree(F, res, rule="W11")
 
 
 def lock_rules(F, res, w1="W1", w3="W3"):
@@ -166,9 +172,17 @@ def other_rules(F, res):
         reach_sud = L.reaches({SRV + "spawn_update_diagnostics"}) | {SRV + "spawn_update_diagnostics"}
         spawns = [b for b, t in h.calls() if any(x in reach_sud and x.startswith(SRV) for x in F.call_targets(h, t))]
         applies = [b for b, t in h.calls() if any(x in reach_avc for x in F.call_targets(h, t))]
-        ok = bool(spawns) and all(any(h.dominates(a, s) for a in applies) for s in spawns)
+        # only a recomputation that can follow a modification of the store needs the change applied first (the branch that
+        # finds nothing to change recomputes because it cancelled, not because the text moved)
+        MUTV = ("glas::vfs::Vfs::change_file_content", "glas::vfs::Vfs::set_path_content", "glas::vfs::Vfs::remove_uri")
+        units = [c for c in F.closures_of(h.path) if any(callee(t2) in MUTV for _b2, t2 in F.fns[c].calls())]
+        muts = [b for b, t in h.calls() if callee(t) in MUTV or callee(t) in units or
+                any(x.startswith(SRV) and x in F.fns and any(callee(t3) in MUTV for _b3, t3 in F.fns[x].calls()) for x in F.call_targets(h, t))]
+        need = [s for s in spawns if any(h.can_reach(m, [s]) and m != s for m in muts)]
+        ok = bool(spawns) and bool(need) and all(any(h.dominates(a, s) for a in applies) for s in need)
         res.ob("W4", "%s/apply-before-diagnostics" % hname, "%s applies the change to the analysis host before it recomputes diagnostics" % hname,
-               ok, where=h.loc(), how="apply sites %d dominate spawn_update_diagnostics: %s" % (len(applies), ok))
+               ok, where=h.loc(), how="recomputations that can follow a store modification: %d of %d; each dominated by one of %d apply sites: %s"
+               % (len(need), len(spawns), len(applies), ok))
     # a change cancels the running diagnostics of EVERY open document (one analysis host): a handler that applies one must
     # recompute them for every open document, else a document whose computation was cancelled keeps an empty/stale list
     memo = {}
@@ -280,3 +294,52 @@ def store_updates_after_cancellation(F, res, rule="W7"):
                    "older snapshot), and that call is made with no guard of the store held", bool(rcs) and free, where=f.loc(t["ln"]),
                    how="request_cancellation dominating this acquisition: %d; made without a store guard: %s" % (len(rcs), free))
     res.floor("write acquisitions of the document store that lead to a modification", n, 4)
+
+
+def cancellation_is_followed_by_recompute(F, res, rule="W9"):
+    """W9: request_cancellation() also cancels the diagnostics tasks of the open documents (they publish `[]` when cancelled).
+    A main-loop handler that cancels - directly or through a helper that does not settle it itself - must recompute the
+    diagnostics of all open documents on *every* path from the cancellation to its return; else a notification that ends
+    up changing nothing (a didChange for a document the server does not hold) leaves every open document without diagnostics."""
+    from rules import c15
+    SRV = "glas::server::Server::"
+    RC = "ide::ide::AnalysisHost::request_cancellation"
+    ALL = SRV + "spawn_update_all_diagnostics"
+    srv = {p: f for p, f in F.fns.items() if p.startswith(SRV) and f.blocks and "{closure" not in p}
+    # helpers that recompute on every path to their return
+    recomputes = {ALL}
+    for _ in range(3):
+        for p, f in srv.items():
+            if p in recomputes:
+                continue
+            via = [b for b, t in f.calls() if callee(t) in recomputes]
+            if via and FL.must_pass(f, via, f.return_blocks()):
+                recomputes.add(p)
+    cancelling = {RC}
+    unsettled = {}
+    for _ in range(4):
+        for p, f in sorted(srv.items()):
+            if p in cancelling or p in recomputes and p == ALL:
+                continue
+            sites = [b for b, t in f.calls() if callee(t) in cancelling]
+            if not sites:
+                continue
+            via = [b for b, t in f.calls() if callee(t) in recomputes]
+            rets = f.return_blocks()
+            bad = [b for b in sites if any(f.can_reach(b, [r], avoid=[v for v in via if v != b]) for r in rets)]
+            if bad:
+                cancelling.add(p)
+                unsettled[p] = [f.term(b)["ln"] for b in bad]
+    entries = [SRV + e for e in c15.ENTRIES]
+    n = 0
+    for e in entries:
+        f = F.fns.get(e)
+        if f is None:
+            continue
+        if any(callee(t) in cancelling or callee(t) == RC for b, t in f.calls()) or e in cancelling:
+            n += 1
+            res.ob(rule, "recompute-after-cancel/%s" % e.rsplit("::", 1)[-1], "every path of %s from a cancellation to its return recomputes the "
+                   "diagnostics of all open documents" % e.rsplit("::", 1)[-1], e not in cancelling, where=f.loc(),
+                   how="a path from the cancelling call at line %s reaches the return without spawn_update_all_diagnostics" % unsettled.get(e)
+                   if e in cancelling else "all paths pass spawn_update_all_diagnostics (or a helper that always calls it)")
+    res.floor("main-loop handlers that cancel", n, 3)
